@@ -408,8 +408,15 @@ class ExprMixin:
             el = base.elem
             if base.items is not None and items is None:
                 el = _strip(elem_of(base))
+            quals = frozenset()
+            if n.slice.lower is None and n.slice.upper is None:
+                # full slice (possibly stepped by +-1): a re-ordering of the whole sequence
+                step = self.eval(n.slice.step, st, frame) if n.slice.step is not None else None
+                if step is None or (step.has_const() and step.const in (1, -1)):
+                    quals = frozenset({("PERM_OF", l) for l in base.alias} |
+                                      {q for q in base.quals if isinstance(q, tuple) and q[0] == "PERM_OF"})
             return AV(types=ty, alias=frozenset({self.fresh_loc(frame, n)}), elem=el, items=items, deps=deps,
-                      quals=frozenset())
+                      quals=quals)
         idx = self.eval(n.slice, st, frame)
         res = self.subscript_value(base, idx, n, st, frame)
         self.ev(frame, st, "subscript", n, recv=base, args=(idx,), result=res)
